@@ -9,6 +9,7 @@ CONSTANTS
   Ops <- MC_OpsDeps
   ReqVers <- MC_V12
   Lazies <- MC_Eager
+  Dev = {}
   Known <- MC_KnownDesign
 CHECK_DEADLOCK FALSE
 INVARIANT NoW_depconflict
